@@ -439,5 +439,11 @@ def run(ck, kind, replay_path=None):
                   % c.get("try_lock_failures_not_judged_concurrent_release_weak_memory", 0))
     ck.assume("every job has a hard wall-clock bound (process group killed) and the batch a deadline; hitting either is reported as 'watchdog' and is never a verdict")
     if kind == "rw":
+        ck.extra["reader_limit_boundary"] = {k: c.get(k, 0) for k in ("reader_limit_sequences", "reader_limit_operations_judged",
+                                                                      "reader_limit_overflow_panics_at_limit")}
+        ck.assume("reader-count boundary (native only): the state word is located and the write-locked encoding read off by watching one real read and one "
+                  "real write guard (any mismatch = inconclusive), then preset to limit-2..limit readers as if their guards had been forgotten; every "
+                  "try_read/read/try_write/drop sequence of length 5 runs on it. A refusal (None) or the 'too many active read locks' panic of read() with "
+                  "exactly limit readers held is accepted; a guard handed out there, a try_write that succeeds, or a count that is not back at the preset is not")
         ck.assume("a refused try_read is accepted when a writer's outer interval (call..drop) or a blocking read() call of another thread overlaps it (a waiting bit may have been set)")
     return RULE
